@@ -163,6 +163,13 @@ def endpointsOk (d : OidcDoc) : Bool :=
     (d.authorizationUri ≠ [] && d.tokenUri ≠ [] &&
       (match d.jwks with | .inline s => s ≠ [] | .fetcher uri _ => uri ≠ [] | .unset => false))
 
+/-- the separators of RFC 2616 tokens (quoted in `isCookieNameToken`, internal/config.go) -/
+def cookieSeparators : Str := B "()<>@,;:\\\"/[]?={}"
+
+/-- `isCookieNameToken`: visible US-ASCII without separators (the empty prefix included) -/
+def isCookieNameToken (s : Str) : Bool :=
+  s.all fun c => decide (32 < c.toNat) && decide (c.toNat < 127) && !(cookieSeparators.contains c)
+
 /-- per-filter step of `mergeAndValidateOIDCConfigs`: the resolved filter and whether an error was recorded;
     `none` = immediate return with an error (root logout path) -/
 def resolveFilter (u : UrlOracle) (dflt : Option OidcDoc) (f : FilterDoc) : Option (FilterDoc × Bool) :=
@@ -176,7 +183,7 @@ def resolveFilter (u : UrlOracle) (dflt : Option OidcDoc) (f : FilterDoc) : Opti
     | none => some (.none, false)           -- unreachable after overrideChecks
 where
   step (d : OidcDoc) : Option (FilterDoc × Bool) :=
-    let urlsOk := endpointsOk d
+    let urlsOk := endpointsOk d && isCookieNameToken d.cookiePrefix
     let d' := applyDefaults d
     match d'.logout with
     | some lo =>
